@@ -24,10 +24,13 @@ EXTENDS Ask, Json, Sequences
 
 CONSTANTS MaxSteps
 
-VARIABLES hist, done
-genvars == <<vars, hist, done>>
+VARIABLES hist, done,
+          burst      \* mbapp: [a, ctr, s] of the ask just issued when the next step is to be a second ask of the
+                     \* same asker under the same counter to another server (a key collision), else NoBurst
+genvars == <<vars, hist, done, burst>>
+NoBurst == [a |-> "-", ctr |-> 0, s |-> "-"]
 
-GenInit == Init /\ hist = <<>> /\ done = FALSE
+GenInit == Init /\ hist = <<>> /\ done = FALSE /\ burst = NoBurst
 
 Quiet == /\ \A k \in K : Returned(k)
          /\ \A k \in K : hnd[k].st # "in"
@@ -36,7 +39,7 @@ Finish ==
   /\ ~done
   /\ PrintT(ToJson(<<"BEH", [mode |-> Mode, serial |-> Serial, hist |-> hist]>>))
   /\ done' = TRUE
-  /\ UNCHANGED <<vars, hist>>
+  /\ UNCHANGED <<vars, hist, burst>>
 
 Rec(r) == hist' = Append(hist, r)
 
@@ -46,30 +49,51 @@ Step ==
      w \in {RandomElement(1..6)} :      \* weights: Close, context ends and clock ticks are rarer than progress
      \/ /\ HCall(k, a, s) \/ SCall(k, a, s) \/ MCall(k, a, s, ctr)
         /\ Rec([op |-> "ask", k |-> k, a |-> a, s |-> s, ctr |-> ctr, now |-> now])
+        /\ burst' = IF Mode = "mbapp" /\ w <= 2 THEN [a |-> a, ctr |-> ctr, s |-> s] ELSE NoBurst
      \/ /\ HMeet(k)
         /\ Rec([op |-> "enter", k |-> k, exp |-> "in"])
+        /\ burst' = NoBurst
      \/ /\ SArrive(k) \/ MReqDeliver(k)
         /\ Rec([op |-> (IF Returned(k)' /\ ~Returned(k) THEN "ret" ELSE "enter"), k |-> k,
                 exp |-> (IF hnd'[k].st = "in" /\ hnd[k].st # "in" THEN "in" ELSE "drop")])
+        /\ burst' = NoBurst
      \/ /\ HandlerRet(k, c)
         /\ Rec([op |-> "handle", k |-> k, cls |-> c])
+        /\ burst' = NoBurst
      \/ /\ MRepDeliver(k, p)
         /\ Rec([op |-> "rep", k |-> k, p |-> p])
+        /\ burst' = NoBurst
      \/ /\ w <= 2 /\ Timeout(k)
         /\ Rec([op |-> "cancel", k |-> k])
+        /\ burst' = NoBurst
      \/ /\ HSelClosed(k) \/ HSelCtx(k) \/ SAbort(k) \/ SCtx(k) \/ MCtx(k)
         /\ Rec([op |-> "ret", k |-> k, exp |-> "err"])
+        /\ burst' = NoBurst
      \/ /\ w = 1 /\ CloseCall(s)
         /\ Rec([op |-> "close", s |-> s])
+        /\ burst' = NoBurst
      \/ /\ CloseRet(s)
         /\ Rec([op |-> "closeret", s |-> s])
+        /\ burst' = NoBurst
      \/ /\ w <= 2 /\ Tick
         /\ Rec([op |-> "tick"])
-     \/ UNCHANGED <<vars, hist>>        \* the random instance is not enabled: an idle step
+        /\ burst' = NoBurst
+     \/ UNCHANGED <<vars, hist, burst>>        \* the random instance is not enabled: an idle step
+
+\* the second ask of a colliding pair follows immediately (the replayer issues both within one millisecond)
+CanBurst == /\ burst # NoBurst
+            /\ \E k \in K : NextToCall(k)
+            /\ \E s \in Servers \ {burst.s} : <<burst.a, burst.ctr, now, s>> \notin used
+BurstStep ==
+  \E k \in K, s \in Servers \ {burst.s} :
+     /\ MCall(k, burst.a, s, burst.ctr)
+     /\ Rec([op |-> "ask", k |-> k, a |-> burst.a, s |-> s, ctr |-> burst.ctr, now |-> now])
+     /\ burst' = NoBurst
 
 GenNext ==
   IF done THEN FALSE
   ELSE IF Len(hist) >= MaxSteps \/ Quiet THEN Finish
+  ELSE IF CanBurst THEN BurstStep /\ UNCHANGED done
   ELSE Step /\ UNCHANGED done
 
 GenSpec == GenInit /\ [][GenNext]_genvars
